@@ -68,6 +68,12 @@ static const char *const T_C02[] = {
 	"M0 | a0 s0 | a0",
 	"M0 | s0 | s0 a0",
 	"M0 S1>0 | a1 s0 | a0 s1",
+	// async_and_wait through a hierarchy whose bottom queue is busy (the bottom's drainer may run the item in place), then more work on the bottom
+	"S0 S1>0 | a0 w1 s0",
+	"S0 S1>0 | a0 w1 | a0 s0",
+	"S0 S1>0 | a0 a0 w1 s0",
+	"slow; S0 S1>0 | a0 w1 s0 | a0",
+	"slow; S0 S1>0 | a0 w1 a0 s0",
 	0
 };
 QP_HARNESS(h_q02, "q02", "C02", T_C02, 0);
